@@ -11,5 +11,5 @@ CHECKS["C15"] = dict(
         "pdf 'posterior' is the library's own posterior(model, LikelihoodGaussIsotropic, uniform_prior) composition used as the environment's probability function (its numerics are not judged, only that recorded values equal it)",
         "a violation stops the checking of its case (later symptoms of the same execution would be consequences)",
     ],
-    jobs=[dict(harness="env_dream", variant="asan", args=[], quick=["--tier", "quick"], thorough=["--tier", "thorough"], deadline_quick=240, deadline_thorough=1140)],
+    jobs=[dict(harness="env_dream", variant="asan", args=[], quick=["--tier", "quick"], thorough=["--tier", "thorough"], deadline_quick=300, deadline_thorough=1140)],
 )
